@@ -92,7 +92,8 @@ def run(ctx):
 
     # ------------------------------------------------------------ L1 tie (model vs anf.rs)
     tie_res = ctx.model("c09", [f"{k}\t{v}" for k, v in ties.items() if v]) if ties else {}
-    n_tie = n_tie_eq = fns = lift_fns = isa = frag = temps = filefrag = 0
+    n_tie = n_tie_eq = n_tie_eqt = fns = lift_fns = isa = frag = temps = filefrag = 0
+    eqt_samples = []
     tie_samples = []
     notfrag = []
     for k, v in ties.items():
@@ -106,6 +107,13 @@ def run(ctx):
         kv = dict(x.split("=", 1) for x in m[2:] if "=" in x)
         if m[0] == "EQ" and m[1] == "EQ":
             n_tie_eq += 1
+        elif m[0].split(" ")[0] in ("EQ", "EQT") and m[1].split(" ")[0] in ("EQ", "EQT"):
+            # equal except for the type annotation of a reference to a temporary: the dump does not carry the `ty` field
+            # of ELet/EIf, which the model recomputes from the body; they disagree only when a closure is used as a value
+            # (lift.rs keeps the function type on the node, the closure-environment struct type on the body)
+            n_tie_eqt += 1
+            if len(eqt_samples) < 2:
+                eqt_samples.append(f"{k}: {m[0][:260]}")
         else:
             ctx.broken_ties.append(("Model/Anf.lean differs from anf.rs on a real Lift function",
                                     f"{k}: fresh-gensym={m[0][:300]} pipeline={m[1][:300]}"))
@@ -233,6 +241,8 @@ def run(ctx):
                 "oracle case = one effect-placement program x schedule x stage evaluated under Sem / Go.Sem; distinct by (status, stdout) of the reference stage",
         "samples": samples + tie_samples,
         "tie_programs": n_tie, "tie_programs_equal(fresh gensym and pipeline)": n_tie_eq,
+        "tie_programs_equal_up_to_the_type_annotation_of_a_temporary(closure used as a value: ELet.ty is not in the dump)": n_tie_eqt,
+        "tie_type_annotation_samples": eqt_samples,
         "tie_functions": fns, "functions_in_Lift_sublanguage": lift_fns, "real_anf_functions_satisfying_isA": isa,
         "functions_in_InAnfFragment": frag, "files_in_FileInAnfFragment(hypothesis of anf_file_preserves_partial)": filefrag, "functions_outside_InAnfFragment(sample)": notfrag[:5],
         "temporaries_generated_by_model": temps,
@@ -243,7 +253,7 @@ def run(ctx):
         "rejected_by_gocheck(owned by C02, Go stage skipped)": n_invalid_go, "fuel_exhausted(skipped)": n_fuel,
         "effect_kinds_placed": kinds, "distinct_positions": len({p.rsplit(':', 1)[0] for p in positions}),
         "forms": forms, "generator": feats,
-        "impl_oracle_failures": len(ctx.violations), "model_diffs": n_tie - n_tie_eq,
+        "impl_oracle_failures": len(ctx.violations), "model_diffs": n_tie - n_tie_eq - n_tie_eqt,
     }
     ctx.assumptions += [
         "Sem (Model/Sem.lean) is the source-level meaning: call-by-value, left to right, short-circuit, fail at the failing operation; Go.Sem is our reading of the Go spec",
